@@ -244,7 +244,10 @@ def check_one(case):
 
         def xtable(n, ks):
             ks = list(ks)[::-1]
-            return dictable({'k': ks, 'data': ['junk:%s' % k for k in ks], n: ['%s:%s' % (n, k) for k in ks], 'expiry': [None] * len(ks)})
+            cols5 = {'k': ks, n: ['%s:%s' % (n, k) for k in ks], 'expiry': [None] * len(ks), 'data': ['junk:%s' % k for k in ks]}
+            if names.index(n) % 2:
+                cols5 = {c: cols5[c] for c in ('k', 'data', 'expiry', n)}          # ... stored before or after the named column
+            return dictable(cols5)
         kw5 = {n: ('%s:*' % n if assign[n] == 'scalar' else xtable(n, assign[n])) for n in names}
         try:
             r5 = perdictable(f, on='k', defaults=dict(defaults) if dfl else {})(**kw5)
